@@ -12,7 +12,9 @@ import (
 // trustedAssert lists single-result assertions that hold by a package
 // invariant rather than by local flow; one line of reason each.
 var trustedAssert = map[string]string{
-	"(*SelectStatement).RewriteRegexConditions$lit: be.RHS.(*RegexLiteral)": "package invariant: a BinaryExpr whose Op is =~ or !~ gets its RHS from parseRegex (checked by C03.regexrhs) and every rewrite/clone keeps the RHS kind (C13.clonekind)",
+	// (empty: the one entry this table had — RewriteRegexConditions' be.RHS.(*RegexLiteral),
+	// trusted on the belief that the operand of =~ is always a regex — was wrong:
+	// `host =~ /x/ + 1` parses with the arithmetic as the operand. Fixed in /repo.)
 }
 
 // kindPreserving reports whether f is a function whose type switch on its
